@@ -11,7 +11,7 @@ from vlib.wire import Wire, same_json
 
 PROP = 'C12'
 MANIFEST = dict(
-    text="Symbolic check of the real dispatchers' middleware chain and error-handler fold: stacks of 0..2 (quick) / 0..3 (thorough) middlewares over {pass-through, short-circuit, request-rewriting, response-rewriting} "
+    text="Symbolic check of the real dispatchers' middleware chain and error-handler fold: stacks of 0..2 (quick) / 0..3 (thorough) middlewares over {pass-through, short-circuit, request-rewriting, response-rewriting} (plus stacks with a middleware that answers every request, notifications included, itself; the stack also handed over as iterator / tuple / generator) "
          "x handler tables {none, generic, per-code, both, two per key, generic handler replacing the error by one with another code, per-code handler replacing the error} x request kinds "
          "{success, unknown method, params do not bind, protocol error, arbitrary exception in the method, failure outside the method (view constructor -> internal error), notification (ok / failing), 2-element batch of calls, batch of notifications only, mixed batch, rejected document, rejected batch} x sync / async. "
          "The raised error code, the TABLE KEYS and the replacement code are z3 integers, so the solver decides which per-code list fires (incl. replacement code == another key). "
@@ -47,6 +47,15 @@ def obligations(tier):
         if len(stack) == 3 and table in ('two', 'both') and req in ('unknown', 'nobind'):
             continue
         obs.append({'h': 'chain', 'disp': disp, 'stack': stack, 'table': table, 'req': req})
+    # a middleware that answers every request itself, notifications included
+    for disp, stack, table, req in it.product(('sync', 'async'), (['A'], ['P', 'A'], ['W', 'A'], ['A', 'P']), ('none', 'generic'),
+                                              ('ok', 'notif_ok', 'notif_perr', 'batch', 'notif_batch', 'mixed_batch')):
+        obs.append({'h': 'chain', 'disp': disp, 'stack': stack, 'table': table, 'req': req})
+    # the middleware stack / handler lists handed over in other container forms (the parameters are typed Iterable / Mapping)
+    for disp, stack, form, req in it.product(('sync', 'async'), ([k] for k in MW_KINDS), ('iter', 'tuple', 'gen'), ('ok', 'unknown', 'notif_ok', 'batch')):
+        if req not in REQS:
+            continue
+        obs.append({'h': 'chain', 'disp': disp, 'stack': stack + ['P'], 'table': 'generic', 'req': req, 'form': form})
     return obs
 
 
@@ -69,6 +78,8 @@ def _mk_middleware(i, kind, log, ctx, is_async):
         return Request(method=request.method, params=[99], id=request.id)
 
     def short(request):
+        if kind == 'A':          # answers EVERY request itself, notifications included: what the chain returns is what is sent
+            return Response(id=request.id, result=['short', i])
         return UNSET if request.id is None else Response(id=request.id, result=['short', i])
 
     def wrap(r):
@@ -79,7 +90,7 @@ def _mk_middleware(i, kind, log, ctx, is_async):
     if is_async:
         async def mw(request, context, handler):
             enter(request, context)
-            if kind == 'S':
+            if kind in ('S', 'A'):
                 r = short(request)
             elif kind == 'Q':
                 r = await handler(rewrite(request), context)
@@ -92,7 +103,7 @@ def _mk_middleware(i, kind, log, ctx, is_async):
     else:
         def mw(request, context, handler):
             enter(request, context)
-            if kind == 'S':
+            if kind in ('S', 'A'):
                 r = short(request)
             elif kind == 'Q':
                 r = handler(rewrite(request), context)
@@ -165,7 +176,9 @@ def h_chain(ob):
         ctx = object()
         mws = [_mk_middleware(i, k, log, ctx, is_async) for i, k in enumerate(ob['stack'])]
         table, generic, percode = _table(env, ob['table'], log, ctx, is_async)
-        rig = Rig(env, ob['disp'], wire=wire, middlewares=mws, error_handlers=table, suspend=False)      # event ORDER across batch elements is compared: no interleaving (C10 explores the schedules)
+        form = ob.get('form')
+        mws_arg = {'iter': lambda: iter(mws), 'tuple': lambda: tuple(mws), 'gen': lambda: (m for m in mws)}.get(form, lambda: mws)()
+        rig = Rig(env, ob['disp'], wire=wire, middlewares=mws_arg, error_handlers=table, suspend=False)      # event ORDER across batch elements is compared: no interleaving (C10 explores the schedules)
         req = ob['req']
         rid = env.int('rid')
 
@@ -231,13 +244,13 @@ def h_chain(ob):
             for i, k in enumerate(stack):
                 want_log.append(['mw', i, 'in', method, id_, True])
                 depth = i + 1
-                if k == 'S':
+                if k in ('S', 'A'):
                     short = i
                     break
                 if k == 'Q':
                     rewritten = True
             if short is not None:
-                resp = None if id_ is None else ('result', ['short', short])
+                resp = None if (id_ is None and stack[short] != 'A') else ('result', ['short', short])
             else:
                 # core handler
                 eff = kind
